@@ -670,7 +670,7 @@ fn prior_walk_core(rng: &mut Rng, a: u16, target: SignType) -> Vec<Message<'stat
 pub fn c08(thorough: bool, rng: &mut Rng, out: &mut Out) {
     out.rule = "for all 11 sign types x both flip styles x addresses across the 16-bit range: a prior-state walk (nothing, mid-configuration, configured as another type, abandoned / half-finished pixel transfer, pages loaded / shown, ready-to-reset) leaves the virtual sign in some protocol state; then configure (or configure-if-needed where its contract applies), send 0..3 pages with random pixels, show, load-next, send again, shut down through the real controller on the real virtual bus; each result and the sign's state / type / pages are checked directly and compared with the model's runOn; non-trivial = every case; distinct = distinct case line".into();
     out.exhaustive_note = "types x styles complete; prior states, addresses and page contents sampled".into();
-    let reps = if thorough { 60 } else { 12 };
+    let reps = if thorough { 400 } else { 12 };
     for rep in 0..reps {
         for (ti, t) in TYPES.iter().enumerate() {
             for style in [PageFlipStyle::Manual, PageFlipStyle::Automatic] {
@@ -735,7 +735,7 @@ pub fn c08(thorough: bool, rng: &mut Rng, out: &mut Out) {
         }
     }
     // step-by-step variant: observe the sign after configure and after send_pages
-    let reps2 = if thorough { 30 } else { 6 };
+    let reps2 = if thorough { 200 } else { 6 };
     for _ in 0..reps2 {
         for (ti, t) in TYPES.iter().enumerate() {
             for style in [PageFlipStyle::Manual, PageFlipStyle::Automatic] {
